@@ -15,8 +15,11 @@ package proxy
 
 import (
 	"context"
+	"encoding/json"
 	"fmt"
+	"net"
 	"sort"
+	"strconv"
 	"strings"
 	"sync/atomic"
 	"time"
@@ -27,7 +30,11 @@ import (
 	"go.temporal.io/server/client/history"
 	servercommon "go.temporal.io/server/common"
 	"go.temporal.io/server/common/log"
+	"go.temporal.io/server/common/channel"
 	"go.temporal.io/server/common/log/tag"
+	"google.golang.org/grpc"
+	"google.golang.org/grpc/credentials/insecure"
+	"google.golang.org/grpc/metadata"
 	"google.golang.org/grpc/codes"
 	"google.golang.org/grpc/status"
 	"google.golang.org/protobuf/proto"
@@ -70,11 +77,20 @@ type rwCase struct {
 	// LateTargets: target indices that are NOT connected at the start (connected by a later "connect" op or at drain)
 	LateTargets []int `json:"late_targets,omitempty"`
 	Epilogue    bool  `json:"epilogue,omitempty"` // run C03's liveness epilogue
+	// Nodes > 1: that many proxy instances (real shard managers + intra-proxy managers connected by real gRPC over
+	// in-memory pipes) share the work; SrcNode[i] / TgtNode[j] say on which instance the stream of source shard i /
+	// target shard j lands (missing entries: instance 0). Tasks and acknowledgements then cross instances.
+	Nodes   int   `json:"nodes,omitempty"`
+	SrcNode []int `json:"src_node,omitempty"`
+	TgtNode []int `json:"tgt_node,omitempty"`
 }
 
 func (c rwCase) String() string {
 	var sb strings.Builder
 	fmt.Fprintf(&sb, "NS=%d NT=%d late=%v:", c.NS, c.NT, c.LateTargets)
+	if c.Nodes > 1 {
+		fmt.Fprintf(&sb, " nodes=%d src@%v tgt@%v:", c.Nodes, c.SrcNode, c.TgtNode)
+	}
 	for _, o := range c.Ops {
 		fmt.Fprintf(&sb, " %s", o)
 	}
@@ -261,7 +277,44 @@ type rwTargetMsg struct {
 	clone *vfResp
 }
 
+// rwNode is one proxy instance of a multi-instance world.
+type rwNode struct {
+	name  string
+	sm    *shardManagerImpl
+	lis   *vfPipeListener
+	srv   *grpc.Server
+	conns []*grpc.ClientConn
+	last  map[string]ShardInfo // local shards as last announced to the peers
+}
+
+// rwIntraSvc is the AdminService face an instance offers to its peers: intra-proxy replication streams only.
+type rwIntraSvc struct {
+	adminservice.UnimplementedAdminServiceServer
+	w *rwWorld
+	n *rwNode
+}
+
+func (s *rwIntraSvc) StreamWorkflowReplicationMessages(stream adminservice.AdminService_StreamWorkflowReplicationMessagesServer) error {
+	md, _ := metadata.FromIncomingContext(stream.Context())
+	num := func(k string) int32 {
+		if v := md.Get(k); len(v) > 0 {
+			n, _ := strconv.Atoi(v[0])
+			return int32(n)
+		}
+		return 0
+	}
+	target := history.ClusterShardID{ClusterID: num(history.MetadataKeyClientClusterID), ShardID: num(history.MetadataKeyClientShardID)}
+	source := history.ClusterShardID{ClusterID: num(history.MetadataKeyServerClusterID), ShardID: num(history.MetadataKeyServerShardID)}
+	defer func() {
+		if r := recover(); r != nil {
+			s.w.panics = append(s.w.panics, fmt.Sprintf("panic in streamIntraProxyRouting on %s: %v", s.n.name, r))
+		}
+	}()
+	return streamIntraProxyRouting(vfNoop(), stream, source, target, s.n.sm, s.w.lifetime)
+}
+
 type rwWorld struct {
+	nodes        []*rwNode
 	gates        *c08Gates
 	windowTarget int // target index whose dying sender is parked at "sender.closed" (-1: none)
 	c        rwCase
@@ -350,10 +403,54 @@ func (w *rwWorld) closeWindow() {
 func newRWWorld(c rwCase) *rwWorld {
 	var lp logging.LoggerProvider = vfHookProvider{}
 	scc := config.ShardCountConfig{Mode: config.ShardCountRouting, LocalShardCount: int32(c.NS), RemoteShardCount: int32(c.NT)}
-	sm := NewShardManager(nil, scc, encryption.TLSConfig{}, lp).(*shardManagerImpl)
 	ctx, cancel := context.WithCancel(context.Background())
-	_ = sm.Start(ctx)
-	w := &rwWorld{windowTarget: -1, c: c, sm: sm, lifetime: ctx, cancel: cancel, pool: rwPool(c.NT), byMarker: map[string]*rwTaskRec{}, classes: map[string]int{}}
+	w := &rwWorld{windowTarget: -1, c: c, lifetime: ctx, cancel: cancel, pool: rwPool(c.NT), byMarker: map[string]*rwTaskRec{}, classes: map[string]int{}}
+	if c.Nodes <= 1 {
+		sm := NewShardManager(nil, scc, encryption.TLSConfig{}, lp).(*shardManagerImpl)
+		_ = sm.Start(ctx)
+		w.sm = sm
+	} else {
+		names := []string{"node-0", "node-1", "node-2"}[:c.Nodes]
+		for _, name := range names {
+			addrs := map[string]string{}
+			for _, other := range names {
+				if other != name {
+					addrs[other] = other + ":7233"
+				}
+			}
+			mc := &config.MemberlistConfig{Enabled: true, NodeName: name, ProxyAddresses: addrs}
+			sm := NewShardManager(mc, scc, encryption.TLSConfig{}, lp).(*shardManagerImpl)
+			sm.SetupCallbacks()
+			sm.mutex.Lock()
+			sm.started = true
+			sm.mutex.Unlock()
+			n := &rwNode{name: name, sm: sm, last: map[string]ShardInfo{}, lis: &vfPipeListener{ch: make(chan net.Conn), closed: make(chan struct{})}}
+			n.srv = grpc.NewServer()
+			adminservice.RegisterAdminServiceServer(n.srv, &rwIntraSvc{w: w, n: n})
+			go func() { _ = n.srv.Serve(n.lis) }()
+			w.nodes = append(w.nodes, n)
+		}
+		for _, n := range w.nodes {
+			for _, peer := range w.nodes {
+				if peer == n {
+					continue
+				}
+				lis := peer.lis
+				cc, err := grpc.NewClient("passthrough:///"+peer.name, grpc.WithTransportCredentials(insecure.NewCredentials()),
+					grpc.WithContextDialer(func(context.Context, string) (net.Conn, error) { return lis.Dial() }))
+				if err != nil {
+					panic(err)
+				}
+				n.conns = append(n.conns, cc)
+				n.sm.intraMgr.streamsMu.Lock()
+				n.sm.intraMgr.peers[peer.name] = &peerState{conn: cc, receivers: map[peerStreamKey]*intraProxyStreamReceiver{}, senders: map[peerStreamKey]*intraProxyStreamSender{}, recvShutdown: map[peerStreamKey]channel.ShutdownOnce{}}
+				n.sm.intraMgr.streamsMu.Unlock()
+				// the instances know each other from the start (state exchange at join)
+				n.sm.delegate.MergeRemoteState(peer.sm.delegate.LocalState(false), false)
+			}
+		}
+		w.sm = w.nodes[0].sm
+	}
 	for i := 0; i < c.NS; i++ {
 		w.sources = append(w.sources, &rwSource{idx: i, nextID: 10})
 	}
@@ -361,6 +458,87 @@ func newRWWorld(c rwCase) *rwWorld {
 		w.targets = append(w.targets, &rwTarget{idx: j})
 	}
 	return w
+}
+
+// smFor: the instance on which the stream of the given shard lands.
+func (w *rwWorld) smFor(side string, idx int) *shardManagerImpl {
+	if len(w.nodes) == 0 {
+		return w.sm
+	}
+	at := w.c.SrcNode
+	if side == "T" {
+		at = w.c.TgtNode
+	}
+	k := 0
+	if idx < len(at) {
+		k = ((at[idx] % len(w.nodes)) + len(w.nodes)) % len(w.nodes)
+	}
+	return w.nodes[k].sm
+}
+
+func (w *rwWorld) allSMs() []*shardManagerImpl {
+	if len(w.nodes) == 0 {
+		return []*shardManagerImpl{w.sm}
+	}
+	var out []*shardManagerImpl
+	for _, n := range w.nodes {
+		out = append(out, n.sm)
+	}
+	return out
+}
+
+// syncNodes does what memberlist does between instances: every change of an instance's local shard set is announced
+// to the others (real announcement format through the real NotifyMsg), followed by a state exchange (real
+// LocalState / MergeRemoteState) and a reconciliation of the intra-proxy streams on every instance.
+func (w *rwWorld) syncNodes() {
+	if len(w.nodes) == 0 {
+		return
+	}
+	for round := 0; round < 4; round++ {
+		changed := false
+		for _, n := range w.nodes {
+			n.sm.mutex.RLock()
+			cur := map[string]ShardInfo{}
+			for k, v := range n.sm.localShards {
+				cur[k] = v
+			}
+			n.sm.mutex.RUnlock()
+			var msgs []ShardMessage
+			for k, v := range cur {
+				if old, ok := n.last[k]; !ok || !old.Created.Equal(v.Created) {
+					msgs = append(msgs, ShardMessage{Type: "register", NodeName: n.name, ClientShard: v.ID, Timestamp: v.Created})
+				}
+			}
+			for k, v := range n.last {
+				if _, ok := cur[k]; !ok {
+					msgs = append(msgs, ShardMessage{Type: "unregister", NodeName: n.name, ClientShard: v.ID, Timestamp: time.Now()})
+				}
+			}
+			n.last = cur
+			if len(msgs) == 0 {
+				continue
+			}
+			changed = true
+			sort.Slice(msgs, func(a, b int) bool { return msgs[a].Timestamp.Before(msgs[b].Timestamp) })
+			for _, peer := range w.nodes {
+				if peer == n {
+					continue
+				}
+				peer.sm.delegate.MergeRemoteState(n.sm.delegate.LocalState(false), false)
+				for _, m := range msgs {
+					data, _ := json.Marshal(m)
+					peer.sm.delegate.NotifyMsg(data)
+				}
+			}
+		}
+		for _, n := range w.nodes {
+			n.sm.intraMgr.ReconcilePeerStreams("")
+		}
+		vfQuiesce()
+		if !changed {
+			break
+		}
+	}
 }
 
 func (w *rwWorld) fail(format string, a ...any) {
@@ -411,13 +589,14 @@ func (w *rwWorld) openOpt(side string, idx int, holdOpen, openFails bool) *rwStr
 				w.panics = append(w.panics, fmt.Sprintf("panic in streamRouting(%s%d): %v", side, idx, r))
 			}
 		}()
-		_ = streamRouting(vfNoop(), inc.ss, serverShard, clientShard, w.sm, inc.client, RoutingParameters{RoutingLocalShardCount: localCount, DirectionLabel: "vf"}, w.lifetime)
+		_ = streamRouting(vfNoop(), inc.ss, serverShard, clientShard, w.smFor(side, idx), inc.client, RoutingParameters{RoutingLocalShardCount: localCount, DirectionLabel: "vf"}, w.lifetime)
 	}()
 	go func() { // gRPC: once the handler returned, the server stream is dead
 		<-inc.done
 		inc.ss.Kill()
 	}()
 	vfQuiesce()
+	w.syncNodes()
 	if side == "S" {
 		s := w.sources[idx]
 		s.incs = append(s.incs, inc)
@@ -827,21 +1006,42 @@ func (w *rwWorld) endAll() (leftovers []string) {
 			}
 		}
 	}
-	if ls := w.sm.GetLocalShards(); len(ls) != 0 {
-		leftovers = append(leftovers, fmt.Sprintf("shards still registered: %v", ls))
+	w.syncNodes()
+	for _, sm := range w.allSMs() {
+		if ls := sm.GetLocalShards(); len(ls) != 0 {
+			leftovers = append(leftovers, fmt.Sprintf("shards still registered: %v", ls))
+		}
+		ci := sm.GetChannelInfo()
+		if ci.TotalSendChannels != 0 || ci.TotalAckChannels != 0 {
+			leftovers = append(leftovers, fmt.Sprintf("channels still registered: %d send, %d ack", ci.TotalSendChannels, ci.TotalAckChannels))
+		}
+		sm.localReceiverCancelFuncsMu.RLock()
+		nc := len(sm.localReceiverCancelFuncs)
+		sm.localReceiverCancelFuncsMu.RUnlock()
+		sm.activeReceiversMu.RLock()
+		na := len(sm.activeReceivers)
+		sm.activeReceiversMu.RUnlock()
+		if nc != 0 || na != 0 {
+			leftovers = append(leftovers, fmt.Sprintf("receiver bookkeeping left: %d cancel funcs, %d active receivers", nc, na))
+		}
 	}
-	ci := w.sm.GetChannelInfo()
-	if ci.TotalSendChannels != 0 || ci.TotalAckChannels != 0 {
-		leftovers = append(leftovers, fmt.Sprintf("channels still registered: %d send, %d ack", ci.TotalSendChannels, ci.TotalAckChannels))
+	for _, n := range w.nodes {
+		n.sm.intraMgr.streamsMu.RLock()
+		for peer, ps := range n.sm.intraMgr.peers {
+			if len(ps.receivers) != 0 || len(ps.senders) != 0 {
+				leftovers = append(leftovers, fmt.Sprintf("%s still holds %d intra-proxy receiver(s) and %d sender(s) for %s", n.name, len(ps.receivers), len(ps.senders), peer))
+			}
+		}
+		n.sm.intraMgr.streamsMu.RUnlock()
 	}
-	w.sm.localReceiverCancelFuncsMu.RLock()
-	nc := len(w.sm.localReceiverCancelFuncs)
-	w.sm.localReceiverCancelFuncsMu.RUnlock()
-	w.sm.activeReceiversMu.RLock()
-	na := len(w.sm.activeReceivers)
-	w.sm.activeReceiversMu.RUnlock()
-	if nc != 0 || na != 0 {
-		leftovers = append(leftovers, fmt.Sprintf("receiver bookkeeping left: %d cancel funcs, %d active receivers", nc, na))
+	for _, n := range w.nodes {
+		for _, cc := range n.conns {
+			_ = cc.Close()
+		}
+	}
+	for _, n := range w.nodes {
+		n.srv.Stop()
+		_ = n.lis.Close()
 	}
 	w.cancel()
 	vfQuiesce()
